@@ -9,7 +9,7 @@ CONSTANTS NSmall, KSmall, VSmall,    \* Bijection: every index of every (n,k), 2
           RankMaxV, RankMaxN,        \* brute-force rank meaning for V <= RankMaxV, n <= RankMaxN
           LapBlock,                  \* points per successor state in the Laplace point check
           GridP, GridD               \* additional (fs0,decay) = (128 p, 64 d) grid
-VARIABLE c
+VARIABLE st
 
 Tab == ndJsonDeserialize(IOEnv.TABLES)
 RecOf(kind) == Tab[CHOOSE j \in 1..Len(Tab) : Tab[j].k = kind]
@@ -18,26 +18,37 @@ UtabRec == RecOf("utab")
 Pairs == UNION { {<<Tab[j].t[2 * b - 1] * 128, Tab[j].t[2 * b] * 64>> : b \in 1..Len(Tab[j].t) \div 2}
                  : j \in {j \in 1..Len(Tab) : Tab[j].k = "eprob"} }
 GridPairs == {<<128 * p, 64 * d>> : p \in GridP, d \in GridD}
-Reach == CacheReach(CacheRec)
-SmallNK == {nk \in (2..NSmall) \X (1..KSmall) : Vn(nk[1], nk[2]) # -1 /\ Vn(nk[1], nk[2]) <= VSmall}
+\* (a malformed cache is rejected by SymTrace; here it only empties the set, which the census shows)
+Reach == IF CacheShapeOK(CacheRec) THEN CacheReach(CacheRec) ELSE {}
+\* (an operator with parameters on purpose: TLC evaluates parameterless constant definitions before it
+\* has cached the big tables of SymCodes, which would rebuild them at every reference)
+SmallNKOf(ns, ks, vs) == {nk \in (2..ns) \X (1..ks) : Vn(nk[1], nk[2]) # -1 /\ Vn(nk[1], nk[2]) <= vs}
 
 St(t, a, b, i) == [t |-> t, a |-> a, b |-> b, i |-> i]
-\* two levels so that the workers share the enumeration (Init is single-threaded)
-Init == c \in {St("tab", n, 0, 0) : n \in 0..NDim}
-           \cup {St("nk", nk[1], nk[2], -1) : nk \in SmallNK}
+\* three levels so that the workers share all evaluation (Init is single-threaded): the root fans out
+\* into one state per table row / (n,k) / reachable (N,K) / parameter pair, those into indices and point blocks
+Level1 == {St("tab", n, 0, 0) : n \in 0..NDim}
+           \cup {St("nk", nk[1], nk[2], -1) : nk \in SmallNKOf(NSmall, KSmall, VSmall)}
            \cup {St("reach", nk[1], nk[2], 0) : nk \in Reach}
            \cup {St("pair", p[1], p[2], -1) : p \in Pairs \cup GridPairs}
-Next == \/ /\ c.t = "nk"
-           /\ \E i \in 0..Vn(c.a, c.b) - 1 : c' = St("idx", c.a, c.b, i)
-        \/ /\ c.t = "pair"
-           /\ \E blk \in 0..(LapTotal \div LapBlock) - 1 : c' = St("pts", c.a, c.b, blk)
-Spec == Init /\ [][Next]_c
+Init == st = St("root", 0, 0, 0)
+Next == \/ /\ st.t = "root"
+           /\ st' \in Level1
+        \/ /\ st.t = "nk"
+           /\ \E i \in 0..Vn(st.a, st.b) - 1 : st' = St("idx", st.a, st.b, i)
+        \/ /\ st.t = "pair"
+           /\ \E blk \in 0..(LapTotal \div LapBlock) - 1 : st' = St("pts", st.a, st.b, blk)
+Spec == Init /\ [][Next]_st
 
 \* ---- counting theorems, one table row per state
+UR == BuildTab(<<Row0(KDim)>>, 1, NDim, KDim, WZero)      \* U by its recurrence, full size
 RowTheorems(n) ==
   \A k \in 0..KDim :
+    /\ Uw(n, k) = UR[n + 1][k + 1]                           \* the prefix sums of V obey U's recurrence
     /\ Uw(n, k) = (IF n = 0 /\ k = 0 THEN WOne ELSE IF n = 0 \/ k = 0 THEN WZero
                    ELSE WAdd3(Uw(n - 1, k), Uw(n, k - 1), Uw(n - 1, k - 1)))
+    /\ n <= UTabRows - 1 => UWide[n + 1][k + 1] = Uw(n, k)   \* the table rows, where both are tabulated
+    /\ k <= UTabRows - 1 => UWide[k + 1][n + 1] = Uw(n, k)   \* and through symmetry up to column NDim
     /\ Vw(n, k) = (IF k = 0 THEN WOne ELSE IF n = 0 THEN WZero
                    ELSE WAdd3(Vw(n - 1, k), Vw(n, k - 1), Vw(n - 1, k - 1)))
     /\ n >= 1 => Sw(n, k) = Uw(n, k)                         \* U(N,M) = sum_{j<M} V(N-1,j)
@@ -48,40 +59,43 @@ RowTheorems(n) ==
     /\ (n = 3 /\ k >= 1) => Vn(n, k) = 4 * k * k + 2 /\ Un(n, k) = (2 * k - 2) * k + 1
     /\ (n = 4 /\ k >= 1) => 3 * Vn(n, k) = 8 * (k * k + 2) * k
     /\ (k >= 1 /\ Fits32(Vw(n, k)) /\ n >= 1) => WLess(Vw(n, k - 1), Vw(n, k)) \/ n = 1   \* more pulses, more codewords
-URecurrence == c.t = "tab" => RowTheorems(c.a)
+URecurrence == st.t = "tab" => RowTheorems(st.a)
 
 \* ---- the index is the rank in the stated order; the codebook has V(n,k) vectors
 RankMeaning ==
-  (c.t = "nk" /\ Vn(c.a, c.b) <= RankMaxV /\ c.a <= RankMaxN) =>
-     LET S == AllVecs(c.a, c.b) IN
-     /\ Cardinality(S) = Vn(c.a, c.b)
-     /\ \A y \in S : RankIn(S, y) = IndexOf(y) /\ VectorOf(c.a, c.b, IndexOf(y)) = y
+  (st.t = "nk" /\ Vn(st.a, st.b) <= RankMaxV /\ st.a <= RankMaxN) =>
+     LET S == AllVecs(st.a, st.b) IN
+     /\ Cardinality(S) = Vn(st.a, st.b)
+     /\ \A y \in S : RankIn(S, y) = IndexOf(y) /\ VectorOf(st.a, st.b, IndexOf(y)) = y
 
 \* ---- index -> vector -> index is the identity, the vector has k pulses, and the table-walking
 \*      algorithms of cwrs.c compute the same map
 Bijection ==
-  c.t = "idx" =>
-     LET y == VectorOf(c.a, c.b, c.i) IN
-     /\ Len(y) = c.a /\ SumAbs(y) = c.b
-     /\ IndexOf(y) = c.i
+  st.t = "idx" =>
+     LET y == VectorOf(st.a, st.b, st.i) IN
+     /\ Len(y) = st.a /\ SumAbs(y) = st.b
+     /\ IndexOf(y) = st.i
+     /\ VectorOfW(st.a, st.b, WOf(st.i)) = y /\ IndexOfW(y) = WOf(st.i)    \* the wide-index versions agree
 CwrsiMatchesMeaning ==
-  c.t = "idx" => LET y == Cwrsi(c.a, c.b, c.i) IN y = VectorOf(c.a, c.b, c.i) /\ Icwrs(y) = c.i
+  st.t = "idx" => LET y == Cwrsi(st.a, st.b, st.i) IN y = VectorOf(st.a, st.b, st.i) /\ Icwrs(y) = st.i
 
 \* ---- every (N,K) the static mode can request has a codebook that fits 32 bits, and everything
 \*      the algorithms read for it exists in the U table of the code
 NoOverflow ==
-  c.t = "reach" =>
-     /\ c.a >= 2 /\ c.b >= 1 /\ InDims(c.a, c.b + 1)
-     /\ Fits32(Vw(c.a, c.b)) /\ Fits32(Uw(c.a, c.b + 1))
-     /\ UTableCovers(UtabRec, c.a, c.b)
+  st.t = "reach" =>
+     /\ st.a >= 2 /\ st.b >= 1 /\ InDims(st.a, st.b + 1)
+     /\ Fits32(Vw(st.a, st.b)) /\ Fits32(Uw(st.a, st.b + 1))
+     /\ UTabShapeOK(UtabRec) /\ UTableCovers(UtabRec, st.a, st.b)
 
 \* ---- Laplace: regions tile [0, 2^15), none is empty, decode inverts encode
 LaplaceTiles ==
-  /\ c.t = "pair" => LapDomain(c.a, c.b) /\ LapStructureOK(c.a, c.b)
-  /\ c.t = "pts" => LET m == LapModel(c.a, c.b) IN
-                    \A fm \in c.i * LapBlock..(c.i + 1) * LapBlock - 1 : MPointOK(m, fm)
+  /\ st.t = "pair" => LapDomain(st.a, st.b) /\ LapStructureOK(st.a, st.b)
+  /\ st.t = "pts" => LET m == LapModel(st.a, st.b) IN
+                    \A fm \in st.i * LapBlock..(st.i + 1) * LapBlock - 1 : MPointOK(m, fm)
 
-\* vacuity: printed once, the check compares the numbers with what it expects
-Census == <<"CENSUS", Cardinality(SmallNK), Cardinality(Reach), Cardinality(Pairs), Cardinality(GridPairs)>>
-ASSUME PrintT(Census)
+\* vacuity: printed once (from the state of table row 0; an ASSUME would be evaluated before TLC has
+\* cached the tables); the check compares the numbers with what it expects
+Census ==
+  (st.t = "tab" /\ st.a = 0) =>
+     PrintT(<<"CENSUS", Cardinality(SmallNKOf(NSmall, KSmall, VSmall)), Cardinality(Reach), Cardinality(Pairs), Cardinality(GridPairs)>>)
 =============================================================================
